@@ -5,10 +5,11 @@
    The joint Gram matrix of conditioning points and query points is assumed positive semi-definite (kernel_psd).
    Monotonicity of the variance under added inducing points is C06_var_monotone_in_inducing_points (thm/MonoThm.v).
    The Cholesky contract is satisfiable: lib/MxChol.v constructs the factor of every spd matrix (C06_chol_contract_satisfiable).
-   NOT proved here: the base-class wrappers (uncertainty = covariance + mean_covariance, ValueError guards) are
-   checked by the harness. *)
+   The base-class wrappers Predictor / PredictorTime / ExpPredictor.uncertainty are regenerated from
+   mellon/base_predictor.py (gen/C06Unc.v): uncertainty = covariance + mean_covariance (C06_uncertainty_is_sum).
+   NOT proved here: the ValueError guards of the public wrappers (checked by the harness). *)
 From mathcomp Require Import all_ssreflect all_fingroup all_algebra.
-From MellonV Require Import MatOps MxInst MxPsd MxChol MatGen CondThm AffineThm FactorThm CovThm CrossThm MonoThm.
+From MellonV Require Import MatOps MxInst MxPsd MxChol MatGen C06Unc CondThm AffineThm FactorThm CovThm CrossThm MonoThm UncThm.
 Set Implicit Arguments.
 Unset Strict Implicit.
 Import Order.TTheory GRing.Theory Num.Theory.
@@ -127,6 +128,23 @@ Theorem C06_var_monotone_in_inducing_points q b1 b2 (Kss : 'M[F]_q)
                <= (LandmarksCond_covariance_dF Kss K1s L1) i i.
 Proof. exact: var_monotone_in_inducing_points. Qed.
 
+(* uncertainty is exactly the sum of the two (for the three wrapper classes), hence symmetric positive semi-definite,
+   and its diag form is the diagonal of its full form *)
+Theorem C06_uncertainty_is_sum q r (c m : 'M[F]_(q, r)) :
+  [/\ Predictor_uncertainty c m = c + m, PredictorTime_uncertainty c m = c + m & ExpPredictor_uncertainty c m = c + m].
+Proof. exact: uncertainty_is_sum. Qed.
+
+Theorem C06_uncertainty_valid_covariance q b k (Kss : 'M[F]_q) (Kd : 'cV[F]_q) (Kbs : 'M[F]_(b, q)) (Kbb N L : 'M[F]_b) (W : 'M[F]_(b, k)) :
+  chol_of L (Kbb + N) -> sym Kss -> spd (Kbb + N) -> psd N -> psd (block_mx Kbb Kbs Kbs^T Kss) -> Kd = diagof Kss ->
+  let U := Predictor_uncertainty (FullCond_covariance_dF Kss Kbs L) (FullCond_mean_covariance_dF Kbs^T W) in
+  [/\ sym U, psd U
+    & Predictor_uncertainty (FullCond_covariance_dT Kd Kbs L) (FullCond_mean_covariance_dT Kbs^T W) = diagof U].
+Proof.
+move=> cL sK sA pN pJ eK U.
+have [h1 h2] := uncertainty_sym_psd cholF eigS eigV qrQ qrR W cL sK sA pN pJ.
+by split=> //; apply: (uncertainty_diag_agrees cholF eigS eigV qrQ qrR).
+Qed.
+
 End C06.
 
 (* non-vacuity of the library contract every theorem above assumes *)
@@ -144,3 +162,5 @@ Print Assumptions C06_W_is_propagator.
 Print Assumptions C06_W_latent.
 Print Assumptions C06_var_monotone_in_inducing_points.
 Print Assumptions C06_chol_contract_satisfiable.
+Print Assumptions C06_uncertainty_is_sum.
+Print Assumptions C06_uncertainty_valid_covariance.
